@@ -26,7 +26,7 @@ func C04(o *world.Obs) *Result {
 		}
 		if prevReq != nil {
 			for _, f := range []string{"X-A", "X-B", "Accept-Encoding", "Accept-Language", "Authorization", "Cookie", "User-Agent"} {
-				if model.SurelyDifferent(ReqHeader(prevReq.Req).Values(f), ReqHeader(ex.Req).Values(f)) {
+				if model.SurelyDifferentIn(f, ReqHeader(prevReq.Req).Values(f), ReqHeader(ex.Req).Values(f)) {
 					differing++
 					break
 				}
@@ -60,7 +60,7 @@ func C04(o *world.Obs) *Result {
 				mm = "Vary: * never matches"
 			}
 			for _, f := range fields {
-				if model.SurelyDifferent(v.Req.Values(f), h.Values(f)) {
+				if model.SurelyDifferentIn(f, v.Req.Values(f), h.Values(f)) {
 					mm = fmt.Sprintf("%s: stored for %q, requested with %q", f, v.Req.Values(f), h.Values(f))
 					if !(model.OnlyRefusals(v.Req.Values(f)) || model.OnlyRefusals(h.Values(f))) {
 						onlyRefusals = false
